@@ -89,6 +89,14 @@ Theorem C02_task : forall (F : lfmt) (ia : N -> bool) (k : ltask),
 Proof. exact lex_roundtrip_task. Qed.
 Print Assumptions C02_task.
 
+(* the term entry point: parse_term (format_term t) = t *)
+Theorem C02_term_entry : forall (F : lfmt) (ia : N -> bool) (t : lterm),
+  lex_term_ok F ia = true -> lex_space_ok F ia = true ->
+  term_ok F ia t = true -> unamb F t [] ->
+  lex_parse_term ia F (lex_fmt_term F t) = LOk t.
+Proof. exact lex_term_roundtrip. Qed.
+Print Assumptions C02_term_entry.
+
 (* ---- table obligations on the regenerated tables (vm_compute) ---- *)
 Theorem C02_tables_ok : forallb (fun F => lex_c02_ok F std_alnum) shipped_lex_formats = true.
 Proof. exact shipped_lex_c02_ok. Qed.
